@@ -5,6 +5,7 @@ package e1
 
 import (
 	"bufio"
+	"crypto/sha256"
 	"fmt"
 	"os"
 	"path/filepath"
@@ -12,6 +13,7 @@ import (
 	"strings"
 	"time"
 
+	"vctl/internal/audit"
 	"vctl/internal/grog"
 	"vctl/internal/spec"
 	"vctl/internal/tree"
@@ -296,4 +298,58 @@ func (e *Env) Cause(l string) string {
 	}
 	sort.Strings(xs)
 	return strings.Join(xs, "+")
+}
+
+// CacheDir is the workspace cache directory grog derives from the workspace path.
+func (e *Env) CacheDir() string {
+	h := sha256.Sum256([]byte(e.WS))
+	return filepath.Join(e.M.Root, fmt.Sprintf("%x", h)[:16]+"-"+filepath.Base(e.WS), "cache")
+}
+
+// EnableHookLog makes grog append its hook events to <case dir>/hooks.jsonl.
+func (e *Env) EnableHookLog() string {
+	p := filepath.Join(e.Dir, "hooks.jsonl")
+	e.M.ExtraEnv = append(e.M.ExtraEnv, "GROG_VERIF_LOG="+p)
+	return p
+}
+
+// ChangeHashes returns the latest change hash grog computed for every label (from the hook log).
+func ChangeHashes(evs []HookEvent) map[string]string {
+	m := map[string]string{}
+	for _, ev := range evs {
+		if (ev.Name == "cache.lookup" || ev.Name == "result.write") && len(ev.KV) >= 2 {
+			m[ev.KV[0]] = ev.KV[1]
+		}
+	}
+	return m
+}
+
+// DeleteBlobsOf removes from the local cache every blob referenced by the stored result of
+// label (its latest change hash according to the hook log). Returns the number of blobs removed.
+func (e *Env) DeleteBlobsOf(label string, hookLog string, which func(i, n int) bool) int {
+	ch := ChangeHashes(ReadHookLog(hookLog))[label]
+	if ch == "" {
+		return 0
+	}
+	dir := e.CacheDir()
+	b, err := os.ReadFile(filepath.Join(dir, "target", ch))
+	if err != nil {
+		return 0
+	}
+	tr, err := audit.DecodeTargetResult(b)
+	if err != nil {
+		return 0
+	}
+	st, _ := audit.LoadDir(dir)
+	blobs := audit.BlobsOf(st, tr)
+	n := 0
+	for i, k := range blobs {
+		if which != nil && !which(i, len(blobs)) {
+			continue
+		}
+		if os.Remove(filepath.Join(dir, filepath.FromSlash(k))) == nil {
+			n++
+		}
+	}
+	return n
 }
